@@ -321,6 +321,15 @@ theorem bisPart_facts (n : Nat) (v : Nat → Bool) :
     have : n - 1 = 0 := by omega
     refine ⟨⟨fun _ j h1 h2 => by omega, fun _ => trivial⟩, by simp [this], by simp, by simp⟩
 
+theorem bisPart_fail (n : Nat) (v : Nat → Bool) (h : (bisPart n v).1 = false) :
+    ∃ pre j, (bisPart n v).2 = pre ++ [j] ∧ v j = false ∧ ∀ i ∈ pre, v i = true := by
+  unfold bisPart at h ⊢
+  by_cases hn : 2 ≤ n
+  · simp only [hn, if_true] at h ⊢
+    have hw : WF [(1, n - 1)] := by intro p hp; simp at hp; subst hp; simp; omega
+    exact (bisectLoop_spec v _ hw).2.2.2 h
+  · simp [hn] at h
+
 /-! ### the state-list loop is the same loop on the interiors -/
 
 def shrink (p : Nat × Nat) : Nat × Nat := (p.1 + 1, p.2 - 1)
